@@ -37,6 +37,8 @@ def harnesses(tier, seed):
         hs.append(e2e("count", "MF", 4, 2, 2))
         hs.append(e2e("count", "FMF", 5, 2, 2))
         hs.append(e2e("reduce_xor", "FLF", 4, 2, 1))
+        hs.append(e2e("reduce_xor", "FMF", 4, 2, 2))
+        hs.append(e2e("reduce_add", "MF", 4, 2, 2))
         hs.append(e2e("find", "MF", 4, 2, 2))
         hs.append(e2e("count", "M", 4, 3, 1))
     else:
